@@ -3,7 +3,7 @@
    Model: C08/Model.v ([reorder M t] with t the lookup table "old index at each new position",
    [reorder_by_names] the public entry point).  [reordered], [class_rel], [field_rel], [meth_rel],
    [param_rel] (C08/Theory.v) and [keys_good] (C08/TheoryA.v) are the declarative description. *)
-From FB Require Import C08.Model C08.TheoryA C08.TheoryB C08.Theory C08.Theory2 C08.Theory3 C08.Theory4.
+From FB Require Import C08.Model C08.ModelOk C08.TheoryA C08.TheoryB C08.Theory C08.Theory2 C08.Theory3 C08.Theory4 C08.Theory5.
 From Coq Require Import Permutation.
 
 (* Th 1. reorder succeeds with M' exactly when M' has the namespace row permuted, the same
@@ -220,3 +220,60 @@ Print Assumptions C08_reorder_inv_refuted_without_clean.
 Theorem C08_examples : nonvacuous.
 Proof. exact nonvacuous_holds. Qed.
 Print Assumptions C08_examples.
+
+(* ---------------------------------------------------------------------------------------------
+   Round 5: WHEN reorder succeeds (coq/C08/ModelOk.v holds the decidable vocabulary) *)
+
+(* Th 4'. COLLISIONS.  Two entries that would get the same key in the new first namespace - two classes
+   with the same name there, or two fields (two methods) of one class with the same name there and the
+   same rewritten descriptor - make reorder fail: it neither drops one of them nor lets the later one
+   overwrite the earlier.  No hypothesis at all. *)
+Theorem C08_reorder_collision_err : forall M t0 tr, key_collision M t0 = true -> reorder M (t0 :: tr) = Err.
+Proof. exact reorder_collision_err. Qed.
+Print Assumptions C08_reorder_collision_err.
+
+(* what key_collision says, without the boolean vocabulary *)
+Theorem C08_key_collision_meaning : forall M t0,
+  key_collision M t0 = true <->
+  same_key_twice (new_class_keys M t0)
+  \/ exists c, In c (ms_classes M) /\
+       (same_key_twice (new_field_keys (map_class (remapper_a M 0 t0)) t0 c)
+        \/ same_key_twice (new_meth_keys (map_class (remapper_a M 0 t0)) t0 c)).
+Proof. exact key_collision_meaning. Qed.
+Print Assumptions C08_key_collision_meaning.
+
+Theorem C08_same_key_twice_definition : forall (K : Type) (l : list (option K)),
+  same_key_twice l <-> exists i j k, (i < j)%nat /\ nth_error l i = Some (Some k) /\ nth_error l j = Some (Some k).
+Proof. exact (fun K l => iff_refl _). Qed.
+Print Assumptions C08_same_key_twice_definition.
+
+(* Th 4''. reorder fails for EXACTLY four causes (any mapping set, any table): an entry without a name in
+   the new first namespace (Th 4), a member descriptor that does not scan, a collision (Th 4'), two
+   parameters of one method with the same index; on well-formed sets the last cannot occur.  In
+   particular: on a well-formed set whose descriptors scan, reorder to a permutation succeeds iff every
+   class, field and method has a name in the new first namespace and no two entries collide there. *)
+Theorem C08_reorder_err_iff : forall M t0 tr,
+  reorder M (t0 :: tr) = Err <->
+  entry_without_name M t0 = true \/ descs_scan M = false \/ key_collision M t0 = true \/ dup_param_index M = true.
+Proof. exact reorder_err_iff. Qed.
+Print Assumptions C08_reorder_err_iff.
+
+Theorem C08_reorder_err_iff_wf : forall M t0 tr,
+  wf M = true ->
+  (reorder M (t0 :: tr) = Err <->
+   entry_without_name M t0 = true \/ descs_scan M = false \/ key_collision M t0 = true).
+Proof. exact reorder_err_iff_wf. Qed.
+Print Assumptions C08_reorder_err_iff_wf.
+
+(* success depends on the new FIRST namespace only (not on the rest of the table) and is decided by
+   reorder_okb: all new keys present and pairwise distinct, level by level *)
+Theorem C08_reorder_ok_eq : forall M t0 tr, is_ok (reorder M (t0 :: tr)) = reorder_okb M t0.
+Proof. exact reorder_ok_eq. Qed.
+Print Assumptions C08_reorder_ok_eq.
+
+(* non-vacuity: a collision of each kind (two classes; two fields; two methods; two fields whose
+   descriptors differ before the class renaming and coincide after it) fails; same new name with
+   different descriptors is no collision and succeeds; the three-namespace example has none *)
+Theorem C08_collision_examples : collision_examples.
+Proof. exact collision_examples_hold. Qed.
+Print Assumptions C08_collision_examples.
